@@ -353,11 +353,59 @@ class Env:
         H = R[2].reshape((self.Q,) + R[2].shape[d:]) if order >= 2 else None
         tshape = val.shape[1:]
 
+        # Leaf magnitudes: the rounding scale of a spline value / derivative is sum |coefficient| |basis derivative|, not
+        # the absolute value of the result (a Jacobian entry that vanishes identically, e.g. d(time)/d(space parameter) of a
+        # space-time cylinder, is rounding noise of that scale).  NURBS: quotient-rule bound from the homogeneous parts.
+        def absd(*ks):
+            der = [0] * d
+            for k in ks:
+                der[d - 1 - k] += 1
+            A = ref.abs_scale(grid=self.grid, der=der)
+            return A.reshape((self.Q,) + A.shape[d:])
+        M0 = absd()
+        M1 = [absd(k) for k in range(d)] if order >= 1 else None
+        M2 = [[absd(i, k) for k in range(d)] for i in range(d)] if order >= 2 else None
+        if ref.nurbs:
+            w = np.abs(ref._raw_grid(self.grid, [0] * d)[..., -1]).reshape(self.Q)
+            w = np.maximum(w, 1e-300)
+
+            def comp(A, idx):
+                # homogeneous coefficient arrays carry the weight as last component of the (vector) value axis
+                if ref.scalar_nurbs or A.ndim == 2 and tshape == ():
+                    return A[:, 0]
+                return A[(slice(None),) + idx]
+
+            def wpart(A):
+                return A[:, -1]
+
+            def mag_v(idx):
+                return comp(M0, idx) / w
+
+            def mag_g(idx, k):
+                return (comp(M1[k], idx) + comp(M0, idx) * wpart(M1[k]) / w) / w
+
+            def mag_h(idx, i, k):
+                return (comp(M2[i][k], idx) + (comp(M1[i], idx) * wpart(M1[k]) + comp(M1[k], idx) * wpart(M1[i])) / w
+                        + comp(M0, idx) * (wpart(M2[i][k]) + 2.0 * wpart(M1[i]) * wpart(M1[k]) / w) / w) / w
+        else:
+            def mag_v(idx):
+                return M0[(slice(None),) + idx]
+
+            def mag_g(idx, k):
+                return M1[k][(slice(None),) + idx]
+
+            def mag_h(idx, i, k):
+                return M2[i][k][(slice(None),) + idx]
+
         def mk(idx):
             v = val[(slice(None),) + idx].reshape(self.Q, 1, 1)
             g = [J[(slice(None),) + idx + (k,)].reshape(self.Q, 1, 1) for k in range(d)] if order >= 1 else None
             h = [[H[(slice(None),) + idx + (i, k)].reshape(self.Q, 1, 1) for k in range(d)] for i in range(d)] if order >= 2 else None
-            return Jet(v, g, h, d)
+            mv = np.maximum(np.abs(v), mag_v(idx).reshape(self.Q, 1, 1))
+            mg = [np.maximum(np.abs(g[k]), mag_g(idx, k).reshape(self.Q, 1, 1)) for k in range(d)] if order >= 1 else None
+            mh = [[np.maximum(np.abs(h[i][k]), mag_h(idx, i, k).reshape(self.Q, 1, 1)) for k in range(d)] for i in range(d)] \
+                if order >= 2 else None
+            return Jet(v, g, h, d, mag=Jet(mv, mg, mh, d, mag=False))
         if tshape == ():
             return mk(())
         if len(tshape) == 1:
